@@ -236,26 +236,28 @@ Fixpoint avail_at (marks : list N) (off : N) : N :=
   | m :: r => if off <=? m then m - off else avail_at r off
   end.
 
-(* a poller: calls recv_nonblocking once per entry of `avs`, stops at the first error; the stream is dropped at the end *)
+(* a poller: calls recv_nonblocking once per entry of `avs` (one arrival pattern per call) and stops at the first error,
+   after which the stream is dropped.  p_open = the list was exhausted first: the stream is still open. *)
 Record poll_out := mkPoll {
   p_results : list (option (outcome message));     (* every poll result, None = nothing yet *)
   p_writes : list bytes;
-  p_rest : chunks }.
+  p_rest : chunks;
+  p_open : bool }.
 
 Fixpoint poll_loop (avs : list (N -> N)) (cs : chunks) : poll_out :=
   match avs with
-  | [] => mkPoll [] (drop_stream false) cs
+  | [] => mkPoll [] [] cs true
   | av :: avs' =>
     let o := recv_nb av cs in
     match n_res o with
     | Some (Ok m) =>
       let rest := poll_loop avs' (n_rest o) in
-      mkPoll (Some (Ok m) :: p_results rest) (n_writes o ++ p_writes rest) (p_rest rest)
+      mkPoll (Some (Ok m) :: p_results rest) (n_writes o ++ p_writes rest) (p_rest rest) (p_open rest)
     | None =>
       let rest := poll_loop avs' (n_rest o) in
-      mkPoll (None :: p_results rest) (n_writes o ++ p_writes rest) (p_rest rest)
-    | Some (Err e) => mkPoll [Some (Err e)] (n_writes o ++ drop_stream (e =? ConnectionClosed)) (n_rest o)
-    | Some (Crash w) => mkPoll [Some (Crash w)] (n_writes o) (n_rest o)
+      mkPoll (None :: p_results rest) (n_writes o ++ p_writes rest) (p_rest rest) (p_open rest)
+    | Some (Err e) => mkPoll [Some (Err e)] (n_writes o ++ drop_stream (e =? ConnectionClosed)) (n_rest o) false
+    | Some (Crash w) => mkPoll [Some (Crash w)] (n_writes o) (n_rest o) false
     end
   end.
 
